@@ -4,4 +4,4 @@ set -e
 cd "$(dirname "$0")/engine"
 export GOPROXY=off GOTOOLCHAIN=local GOFLAGS=-mod=mod GOSUMDB=off PATH=/opt/veriftools/go1.26.8/bin:$PATH
 mkdir -p ../bin
-go build -o ../bin/verif ./cmd/verif
+go build -o ../bin/verif.new ./cmd/verif && mv ../bin/verif.new ../bin/verif
